@@ -19,7 +19,7 @@ pub fn info() -> PropInfo {
     PropInfo {
         id: "C07",
         level: "exploration",
-        rule: "proptest, six labelled input classes, every call in a crash-isolated child on an 8 MiB stack with a 60 s watchdog: (a) arbitrary Unicode strings <= 8 KB to both constructors in both formats; (b) grammar-generated near-valid SD-JWTs (part counts, base64url-looking parts, JSON envelopes with wrong / missing / extra members); (c) structural mutations of valid tokens (parts dropped / duplicated / swapped, '~' and '.' inserted or removed, truncation, every JSON position replaced by another type); (d) validly signed structures from the harness's packer with up to 6 deviations (disclosures of any shape and arity, digests from the wrong container kind, _sd / ... / _sd_alg / cnf / iss / exp of any type, hand-made KB-JWTs); (e) arbitrary selection JSON and key-binding arguments (inconsistent, unknown algorithms) on holders over honest and already narrowed SD-JWTs; (f) issuer inputs (non-object claims, any Unicode names, nesting <= 64, arbitrary path strings, any alg string). Oracle: the call returns Ok or Err; a panic, abort or stack overflow is a violation; watchdog => inconclusive. Non-trivial: the input got past the first parse step of its entry point (own decoder splits it and sees a JWT with a '.'), or is of class d/e/f. Distinct: hash of the case JSON. evaluations = library calls.",
+        rule: "proptest, six labelled input classes, every call in a crash-isolated child on an 8 MiB stack with a 60 s watchdog: (a) arbitrary Unicode strings <= 8 KB to both constructors in both formats; (b) grammar-generated near-valid SD-JWTs (part counts, base64url-looking parts, JSON envelopes with wrong / missing / extra members); (c) structural mutations of valid tokens (parts dropped / duplicated / swapped, '~' and '.' inserted or removed, truncation, every JSON position replaced by another type); (d) validly signed structures from the harness's packer with up to 6 deviations (disclosures of any shape and arity, digests from the wrong container kind, _sd / ... / _sd_alg / cnf / iss / exp of any type, hand-made KB-JWTs; hand-made self-similar chains in which every level references the next digest twice, depth 8..33); (e) arbitrary selection JSON and key-binding arguments (inconsistent, unknown algorithms) on holders over honest and already narrowed SD-JWTs; (f) issuer inputs (non-object claims, any Unicode names, nesting <= 64, arbitrary path strings, any alg string). Oracle: the call returns Ok or Err; a panic, abort or stack overflow is a violation; watchdog => inconclusive. Non-trivial: the input got past the first parse step of its entry point (own decoder splits it and sees a JWT with a '.'), or is of class d/e/f. Distinct: hash of the case JSON. evaluations = library calls.",
         assumptions: &["inputs up to ~8 KB; stack exhaustion judged on an 8 MiB stack", "non-termination is reported as inconclusive (exit 2), never as a violation"],
         needs_mock: false,
         rounds: 2,
@@ -471,8 +471,16 @@ fn issue_case() -> BoxedStrategy<Case> {
         .boxed()
 }
 
+/// validly signed self-similar structures (each level references the next digest twice): must be
+/// refused, or at least handled, in time proportional to the input
+fn chain_case() -> BoxedStrategy<Case> {
+    (doubling_chain_parts(), fmt_strategy(), prop_oneof![Just(Alg::HS256), Just(Alg::EdDSA)], junk_selection())
+        .prop_map(|((payload, disclosures), fmt, alg, selection)| C07Case::Signed { payload, disclosures, kb: None, fmt, alg, aud: None, nonce: None, selection })
+        .boxed()
+}
+
 pub fn strategy() -> BoxedStrategy<Case> {
-    prop_oneof![4 => text_case(), 4 => signed_case(), 3 => select_case(), 2 => issue_case()].boxed()
+    prop_oneof![40 => text_case(), 40 => signed_case(), 30 => select_case(), 20 => issue_case(), 2 => chain_case()].boxed()
 }
 
 pub fn plan(tier: Tier) -> Plan<Case> {
